@@ -59,8 +59,8 @@ def batches(ctx):
     ]
 
 
-OPS = ["glyfshift", "compbase", "cffshift", "os2stale", "hmtx", "vmtx", "headflags", "cmap", "name", "os2", "deltable", "opaque", "subset", "scale", "reorder", "instantiate", "cffwidth"]
-SMALL_OPS = ["glyfshift", "compbase", "cffshift", "os2stale", "hmtx", "vmtx", "headflags", "cmap", "name", "os2", "opaque"]
+OPS = ["glyfshift", "glyfscale", "compbase", "compnew", "cffshift", "os2stale", "hmtx", "vmtx", "headflags", "cmap", "name", "os2", "deltable", "opaque", "subset", "scale", "reorder", "instantiate", "cffwidth"]
+SMALL_OPS = ["glyfshift", "glyfscale", "compbase", "compnew", "cffshift", "os2stale", "hmtx", "vmtx", "headflags", "cmap", "name", "os2", "opaque"]
 CUBIC = "bin:ttLib/data/dot-cubic.ttf"
 VERTICAL = ["ttx:" + p for p in ("cffLib/data/TestSparseCFF2VF.ttx", "subset/data/NotdefWidthCID-Regular.ttx", "subset/data/NotoSansCJKjp-Regular.subset.ttx", "subset/data/TestCID-Regular.ttx", "subset/data/harfbuzz_repacker.ttx", "ttLib/tables/data/NotoColorEmoji.subset.index_format_3.ttx", "ttLib/tables/data/_v_h_e_a_recalc_OTF.ttx", "ttLib/tables/data/_v_h_e_a_recalc_TTF.ttx")]
 
@@ -450,12 +450,36 @@ def _save_and_judge(res, font, cfg, full, h, scratch, stage):
 
             want_box = (0, 0, 0, 0) if box is None else (math.floor(box[0]), math.floor(box[1]), math.ceil(box[2]), math.ceil(box[3]))
             got_box = struct.unpack_from(">4h", tabs["head"], 36)
+            # horizontal header extents: each glyph's box rounded outwards to integers (the box head and FontBBox
+            # use); min(lsb), min(advance - lsb - width), max(lsb + width) with the stored hmtx values, as the format defines them
+            want_hh = got_hh = None
+            if "hhea" in tabs and "hmtx" in tabs and font.isLoaded("hhea") and len(tabs["hhea"]) >= 18:
+                adv = oglyf.read_metrics(tabs, "hhea", "hmtx")
+                order = back.getGlyphOrder()
+                if adv is not None and len(adv) == len(order):
+                    lsbs, rsbs, exts = [], [], []
+                    for gn, (aw, _l) in zip(order, adv):
+                        bp = BoundsPen(gs)
+                        gs[gn].draw(bp)
+                        if bp.bounds is None:
+                            continue
+                        w_ = math.ceil(bp.bounds[2]) - math.floor(bp.bounds[0])
+                        lsbs.append(_l)
+                        rsbs.append(aw - _l - w_)
+                        exts.append(_l + w_)
+                    want_hh = (max(a for a, _ in adv), min(lsbs), min(rsbs), max(exts)) if lsbs else (max(a for a, _ in adv), 0, 0, 0)
+                    got_hh = struct.unpack_from(">Hhhh", tabs["hhea"], 10)
         except Exception:
             want_box = got_box = None
+            want_hh = got_hh = None
         if want_box is not None:
             probes["derived.cff_bbox_checked"] = probes.get("derived.cff_bbox_checked", 0) + 1
             if tuple(got_box) != tuple(want_box):
                 _fail(res, "derived-field-wrong:head-bbox-cff", "head bbox %r, the saved CFF outlines give %r" % (tuple(got_box), tuple(want_box)) + where, field="head-bbox-cff")
+            if want_hh is not None:
+                probes["derived.cff_hhea_checked"] = probes.get("derived.cff_hhea_checked", 0) + 1
+                if tuple(got_hh) != tuple(want_hh) and not res.get("violation"):
+                    _fail(res, "derived-field-wrong:hhea-extents-cff", "hhea advanceWidthMax/minLSB/minRSB/xMaxExtent %r, the saved CFF outlines and hmtx give %r" % (tuple(got_hh), tuple(want_hh)) + where, field="hhea-extents-cff")
     # numGlyphs agrees with hmtx/loca whatever was recalculated
     # flavour change changes no table content
     if not res.get("violation") and cfg["flavor"] is not None and full:  # with everything loaded, saving cannot change the loaded set
